@@ -223,7 +223,7 @@ def main():
     body = fn_body(state, r"fn\s+move_action_fee_multiplier\s*\(", "fn move_action_fee_multiplier")
     misc["FEEMULT_SHIFT"] = int(need(re.search(r"self\.fee_multiplier\s*>>\s*(\d+)", body), "fee multiplier shift").group(1))
     misc["FEEMULT_FLOOR"] = int(need(re.search(r"\.max\((\d+)\)", body), "fee multiplier floor").group(1))
-    misc["FEEMULT_DIV"] = int(need(re.search(r"as\s+i64\s*/\s*(\d+)", body), "fee multiplier divisor").group(1))
+    misc["FEEMULT_DIV"] = int(need(re.search(r"/\s*(\d+)\s*;", body), "fee multiplier divisor").group(1))
     body = fn_body(state, r"fn\s+collect_proposer_action_fee\s*\(", "fn collect_proposer_action_fee")
     misc["REWARD_SHIFT"] = int(need(re.search(r"self\.fee_pool\.0\s*>>\s*(\d+)", body), "proposer reward shift").group(1))
     body = fn_body(state, r"fn\s+apply_tip_909\s*\(", "fn apply_tip_909")
